@@ -551,6 +551,18 @@ impl Driver for C16 {
                     m.obj = E::add(m.obj.clone(), E::mul(E::Num(k), E::Var(i)));
                 }
             }
+            if rng.gen_bool(0.06) {
+                // an assertion whose operand is not 0/1-valued: every door has to refuse it
+                let nums: Vec<usize> = (0..m.n()).filter(|i| !matches!(m.types[*i], VT::Bool)).collect();
+                if let Some(&i) = nums.first() {
+                    let e = match rng.gen_range(0..3) {
+                        0 => E::Var(i),
+                        1 => E::add(E::Var(i), E::Num(1.0)),
+                        _ => E::Neg(Box::new(E::Var(i))),
+                    };
+                    m.cons.push(Con { name: None, kind: CKind::Assert(e) });
+                }
+            }
             let unused = if rng.gen_bool(0.3) {
                 m.names.push("unused_var".to_string());
                 m.types.push(match rng.gen_range(0..4) {
@@ -727,11 +739,9 @@ impl Driver for C16 {
                 (a, b_) if compiled_class(a) == compiled_class(b_) => out.tag(&format!("builder-vs-text:both-{}", compiled_class(a))),
                 (Compiled::Panicked(_), _) | (_, Compiled::Panicked(_)) => out.inconclusive("panic (C18's concern)"),
                 (a, b_) => {
-                    if identical {
-                        out.violation("builder-vs-text:outcome-differs", &format!("builder {} / text {}", compiled_class(a), compiled_class(b_)), detail(Value::Null));
-                    } else {
-                        out.tag("builder-vs-text:outcome-differs(different-trees)");
-                    }
+                    // accepted by one door and rejected by the other (or rejected for different reasons): the same model
+                    // was handed to both, whatever the shape of the trees
+                    out.violation("builder-vs-text:outcome-differs", &format!("builder {} / text {}", compiled_class(a), compiled_class(b_)), detail(Value::Null));
                 }
             }
             let Some((la, _lt)) = comparable else {
